@@ -265,6 +265,45 @@ func checkPipeline(t *vk.T, c *gj5s.Case) {
 			return
 		}
 	}
+	// twin fields: several fields of the row object have the same object type; what the list request
+	// offers below one of them it must offer below the others (no statement about which fields)
+	if i := strings.Index(c.ID, "list-twins:"); i >= 0 {
+		twins := strings.Split(c.ID[i+len("list-twins:"):], ",")
+		if l := got["t.v1/ItemService/ListItems"].GetRequest().GetList(); l != nil {
+			offered := map[string][]string{}
+			for _, x := range l.SearchableFields {
+				offered["searchable"] = append(offered["searchable"], x.Name)
+			}
+			for _, x := range l.FilterableFields {
+				offered["filterable"] = append(offered["filterable"], x.Name)
+			}
+			for _, x := range l.SortableFields {
+				offered["sortable"] = append(offered["sortable"], x.Name)
+			}
+			for _, kind := range []string{"searchable", "filterable", "sortable"} {
+				below := map[string][]string{}
+				for _, name := range offered[kind] {
+					for _, tw := range twins {
+						if strings.HasPrefix(name, tw+".") {
+							below[tw] = append(below[tw], strings.TrimPrefix(name, tw+"."))
+						}
+					}
+				}
+				for _, tw := range twins {
+					sort.Strings(below[tw])
+				}
+				for _, tw := range twins[1:] {
+					if fmt.Sprint(below[tw]) != fmt.Sprint(below[twins[0]]) {
+						t.Violation("list-fields-asymmetric|"+kind+"|"+fam, fmt.Sprintf("the list request offers %v as %s below %q but %v below %q, both fields have the same type\n%s", below[twins[0]], kind, twins[0], below[tw], tw, src), src, below[twins[0]], below[tw])
+						return
+					}
+				}
+				if len(below[twins[0]]) > 0 {
+					t.Class("list twins offered")
+				}
+			}
+		}
+	}
 	// state entities: name, primary key, events
 	for _, f := range c.P.Files {
 		for _, d := range f.Decls {
